@@ -65,7 +65,7 @@ Lemma analyse_inl : forall root hook cy p s s1 ot s2 tk,
     cwd s' = cwd sp /\ path s' = t_saved_path tk /\
     (mem_n hook (meta sp) = true -> meta s' = remove_first_n hook (meta sp)) /\
     (mem_n hook (meta sp) = true -> callable e sp = true ->
-       mods s' = filter (fun m => is_plain (snd m)) (mods sp)).
+       mods s' = filter (fun m => purge_keep (rel_recognised e sp) (snd m)) (mods sp)).
 Proof.
   intros root hook cy p s s1 ot s2 tk e PE EP ND sp.
   set (s0 := with_vcwd root s) in *.
@@ -434,9 +434,10 @@ Proof.
   - apply orb_false_iff in H. destruct H as [A B]. rewrite A. f_equal. apply IH; exact B.
 Qed.
 
-(* current sys.modules = entries that are not plain, stacked in front of the untouched original *)
-Definition stacked (m0 m : mmap) : Prop :=
-  exists extra, m = extra ++ m0 /\ Forall (fun x => is_plain (snd x) = false) extra.
+(* current sys.modules = entries the purge will drop, stacked in front of the untouched original.
+   rr = relative file paths are recognised as project files when the purge runs *)
+Definition stacked (rr : bool) (m0 m : mmap) : Prop :=
+  exists extra, m = extra ++ m0 /\ Forall (fun x => purge_keep rr (snd x) = false) extra.
 
 Lemma mdel_app : forall n a b, mdel n (a ++ b) = mdel n a ++ mdel n b.
 Proof.
@@ -453,54 +454,58 @@ Proof.
   induction m as [|[x k] r IH]; cbn; intros H; auto. inversion H; subst.
   destruct (String.eqb n x); auto.
 Qed.
-Lemma stacked_refl : forall m0, stacked m0 m0.
+Lemma stacked_refl : forall rr m0, stacked rr m0 m0.
 Proof. intros; exists []; split; auto. Qed.
-Lemma stacked_mset : forall m0 m n k, stacked m0 m -> is_plain k = false -> mmem n m0 = false -> stacked m0 (mset n k m).
+Lemma stacked_mset : forall rr m0 m n k, stacked rr m0 m -> purge_keep rr k = false -> mmem n m0 = false ->
+  stacked rr m0 (mset n k m).
 Proof.
-  intros m0 m n k (extra & -> & F) Hk Hn. exists ((n, k) :: mdel n extra). split.
+  intros rr m0 m n k (extra & -> & F) Hk Hn. exists ((n, k) :: mdel n extra). split.
   - unfold mset. rewrite mdel_app, (mdel_notin n m0 Hn). reflexivity.
   - constructor; auto. apply mdel_Forall; exact F.
 Qed.
-Lemma stacked_mdel : forall m0 m n, stacked m0 m -> mmem n m0 = false -> stacked m0 (mdel n m).
+Lemma stacked_mdel : forall rr m0 m n, stacked rr m0 m -> mmem n m0 = false -> stacked rr m0 (mdel n m).
 Proof.
-  intros m0 m n (extra & -> & F) Hn. exists (mdel n extra). split.
+  intros rr m0 m n (extra & -> & F) Hn. exists (mdel n extra). split.
   - rewrite mdel_app, (mdel_notin n m0 Hn). reflexivity.
   - apply mdel_Forall; exact F.
 Qed.
-Lemma stacked_fakes : forall m0 names m, stacked m0 m -> (forall n, In n names -> mmem n m0 = false) ->
-  stacked m0 (fold_left (fun m x => mset x KFake m) names m).
+Lemma stacked_fakes : forall rr m0 names m, stacked rr m0 m -> (forall n, In n names -> mmem n m0 = false) ->
+  stacked rr m0 (fold_left (fun m x => mset x KFake m) names m).
 Proof.
   induction names as [|x r IH]; cbn; intros m S H; auto.
   apply IH; [|intros n Hn; apply H; right; exact Hn].
   apply stacked_mset; auto.
 Qed.
-Lemma stacked_purge : forall m0 m, stacked m0 m -> forallb (fun x => is_plain (snd x)) m0 = true ->
-  filter (fun x => is_plain (snd x)) m = m0.
+Lemma stacked_purge : forall rr m0 m, stacked rr m0 m -> forallb (fun x => is_plain (snd x)) m0 = true ->
+  filter (fun x => purge_keep rr (snd x)) m = m0.
 Proof.
-  intros m0 m (extra & -> & F) P. rewrite filter_app.
-  assert (E1 : filter (fun x => is_plain (snd x)) extra = []).
+  intros rr m0 m (extra & -> & F) P. rewrite filter_app.
+  assert (E1 : filter (fun x => purge_keep rr (snd x)) extra = []).
   { induction F as [|x r Hx F IH]; cbn; auto. rewrite Hx. exact IH. }
   rewrite E1. cbn. clear - P. induction m0 as [|x r IH]; cbn in *; auto.
-  apply andb_true_iff in P. destruct P as [A B]. rewrite A. f_equal. apply IH; exact B.
+  apply andb_true_iff in P. destruct P as [A B].
+  assert (K : purge_keep rr (snd x) = true) by (destruct (snd x); try discriminate; reflexivity).
+  rewrite K. f_equal. apply IH; exact B.
 Qed.
 
-(* the script's module operations stay off the host's modules *)
-Definition mod_ops_ok (m0 : mmap) (os : list op) : Prop :=
+(* the script's module operations stay off the host's modules, and what it loads is dropped by the
+   purge (a module loaded by relative path only when such paths are recognised) *)
+Definition mod_ops_ok (rr : bool) (m0 : mmap) (os : list op) : Prop :=
   forall o, In o os ->
     match o with
-    | OModIns n k => is_plain k = false /\ mmem n m0 = false
+    | OModIns n k => purge_keep rr k = false /\ mmem n m0 = false
     | OModDel n => mmem n m0 = false
     | _ => True
     end.
 
-Lemma run_op_mods : forall e o s m0, stacked m0 (mods s) ->
+Lemma run_op_mods : forall rr e o s m0, stacked rr m0 (mods s) ->
   match o with
-  | OModIns n k => is_plain k = false /\ mmem n m0 = false
+  | OModIns n k => purge_keep rr k = false /\ mmem n m0 = false
   | OModDel n => mmem n m0 = false
   | _ => True
-  end -> stacked m0 (mods (run_op e o s)).
+  end -> stacked rr m0 (mods (run_op e o s)).
 Proof.
-  intros e o s m0 S H; destruct o as [k [|n|k']|k|d|n kd|n|d|k c|fr h]; cbn [run_op]; auto.
+  intros rr e o s m0 S H; destruct o as [k [|n|k']|k|d|n kd|n|d|k c|fr h]; cbn [run_op]; auto.
   - destruct (get k' s); exact S.
   - destruct (do_chdir_facts (fake_of outer_patched outer_base k_chdir) (e_real_chdir e) d s) as (_ & _ & _ & M & _).
     rewrite M; exact S.
@@ -508,22 +513,23 @@ Proof.
   - apply stacked_mdel; auto.
   - destruct (mutate_fields k c s) as (_ & _ & _ & M). rewrite M; exact S.
 Qed.
-Lemma run_ops_mods : forall e os s m0, stacked m0 (mods s) -> mod_ops_ok m0 os -> stacked m0 (mods (run_ops e os s)).
+Lemma run_ops_mods : forall rr e os s m0, stacked rr m0 (mods s) -> mod_ops_ok rr m0 os ->
+  stacked rr m0 (mods (run_ops e os s)).
 Proof.
-  intros e os; unfold run_ops. induction os as [|o r IH]; intros s m0 S H; cbn; auto.
+  intros rr e os; unfold run_ops. induction os as [|o r IH]; intros s m0 S H; cbn; auto.
   apply IH.
   - apply run_op_mods; auto. apply (H o). left; reflexivity.
   - intros o' Ho. apply (H o'). right; exact Ho.
 Qed.
 
-Lemma pre_begin_mods : forall e s, (forall n, In n fake_names -> mmem n (mods s) = false) ->
-  stacked (mods s) (mods (pre_state (pre_begin e s))).
+Lemma pre_begin_mods : forall rr e s, (forall n, In n fake_names -> mmem n (mods s) = false) ->
+  stacked rr (mods s) (mods (pre_state (pre_begin e s))).
 Proof.
-  intros e s H. unfold pre_begin.
+  intros rr e s H. unfold pre_begin.
   destruct (capture_warnings_facts s) as [_ R]. set (s1 := capture_warnings s) in *.
   assert (D1 : mods s1 = mods s) by (unfold rest in R; exact (f_equal (fun x => snd x) R)).
   set (s2 := if mmem "numpy" (mods s1) then s1 else insert_fakes numpy_fakes s1).
-  assert (S2 : stacked (mods s) (mods s2)).
+  assert (S2 : stacked rr (mods s) (mods s2)).
   { unfold s2. destruct (mmem "numpy" (mods s1)).
     - rewrite D1. apply stacked_refl.
     - destruct (insert_fakes_facts numpy_fakes s1) as (_ & _ & _ & _ & Da). rewrite Da, D1.
@@ -549,13 +555,13 @@ Proof.
   rewrite IH. unfold begin_patch in B. destruct (target_ok p s); inversion B; reflexivity.
 Qed.
 
-Lemma enter_parse_rest : forall e s s' tk,
+Lemma enter_parse_rest : forall rr e s s' tk,
   enter_parse e s = inl (s', tk) -> (forall n, In n fake_names -> mmem n (mods s) = false) ->
-  path s' = path s /\ meta s' = meta s ++ [e_hook e] /\ stacked (mods s) (mods s') /\ t_saved_path tk = path s.
+  path s' = path s /\ meta s' = meta s ++ [e_hook e] /\ stacked rr (mods s) (mods s') /\ t_saved_path tk = path s.
 Proof.
-  intros e s s' tk E H. rewrite enter_parse_unfold in E.
+  intros rr e s s' tk E H. rewrite enter_parse_unfold in E.
   pose proof (pre_begin_facts e s) as PB. cbv zeta in PB.
-  pose proof (pre_begin_mods e s H) as SM.
+  pose proof (pre_begin_mods rr e s H) as SM.
   destruct (pre_begin e s) as [[s3 oldc]|]; [|discriminate]. cbn in PB, SM. destruct PB as (_ & _ & P3 & M3 & _).
   pose proof (begin_all_rest begin_patched begin_base s3) as R4.
   destruct (begin_all begin_patched begin_base s3) as [s4 bt]. cbn in R4.
@@ -571,8 +577,8 @@ Proof.
   split; [congruence|]. split; [congruence|]. split; [rewrite Hd, Hd4; exact SM|]. cbn. congruence.
 Qed.
 
-Lemma mod_ops_ok_eff : forall m0 p, mod_ops_ok m0 (fst p) -> mod_ops_ok m0 (eff_ops p).
-Proof. intros m0 p H. destruct (eff_ops_cases p) as [E|E]; rewrite E; [intros o []|exact H]. Qed.
+Lemma mod_ops_ok_eff : forall rr m0 p, mod_ops_ok rr m0 (fst p) -> mod_ops_ok rr m0 (eff_ops p).
+Proof. intros rr m0 p H. destruct (eff_ops_cases p) as [E|E]; rewrite E; [intros o []|exact H]. Qed.
 
 Lemma enter_parse_inr_inv : forall e s s', enter_parse e s = inr s' ->
   e_cython e = true /\ get k_cythonize s = None.
@@ -603,7 +609,8 @@ Definition C13_full_statement : Prop :=
                (forall k, In k (effective_keys s) -> content (get k s) s' = content (get k s) s).
 
 (* Every script, every ending: the process survives and the listed state is what it was.  What is
-   left as guards: the host's os.chdir/os._exit are not aliased under another modelled attribute; the
+   left as guards: a module the script loads by a relative file path counts as dropped only when such
+   paths are recognised at the end (mod_ops_ok's first argument); the host's os.chdir/os._exit are not aliased under another modelled attribute; the
    hook object is new; the script registers no finder of its own on sys.meta_path; host modules are plain, fake names unused, the script's module operations
    stay off host modules; os.path.abspath still works when the script ends. *)
 Theorem setup_py_partial : forall root hook cy p s,
@@ -614,12 +621,12 @@ Theorem setup_py_partial : forall root hook cy p s,
   (cy = true -> get k_cythonize s <> None) ->
   forallb (fun m => is_plain (snd m)) (mods s) = true ->
   (forall n, In n fake_names -> mmem n (mods s) = false) ->
-  mod_ops_ok (mods s) (fst p) -> no_meta_ins (fst p) -> callable e sp = true ->
+  mod_ops_ok (rel_recognised e sp) (mods s) (fst p) -> no_meta_ins (fst p) -> callable e sp = true ->
   exists s', analyse root hook cy false p s = Alive s' /\
     listed_state (effective_keys s) s' = listed_state (effective_keys s) s.
 Proof.
   intros root hook cy p s e sp HC HE HK CY PL FK MO NM CA.
-  unfold sp, pre_exit_state in CA. change (e_root e) with root in CA.
+  unfold sp, pre_exit_state in CA, MO. change (e_root e) with root in CA, MO.
   set (s0 := with_vcwd root s) in *.
   pose proof (patch_enter_rest outer_patched outer_base s0) as R1.
   destruct (patch_enter outer_patched outer_base s0) as [s1 ot] eqn:PE. cbn [fst] in R1.
@@ -638,7 +645,8 @@ Proof.
   destruct (analyse_inl root hook cy p s s1 ot s2 tk PE EP ND) as (s' & A & AT & _ & _ & _ & PA & ME & MD).
   exists s'. split; [exact A|].
   assert (FK1 : forall n, In n fake_names -> mmem n (mods s1) = false) by (intros n Hn; rewrite D1; apply FK; exact Hn).
-  destruct (enter_parse_rest _ _ _ _ EP FK1) as (P2 & M2 & S2 & SP).
+  set (rr := rel_recognised e (fst (body e p s2))) in *.
+  destruct (enter_parse_rest rr _ _ _ _ EP FK1) as (P2 & M2 & S2 & SP).
   rewrite D1 in S2.
   assert (M3 : meta (fst (body e p s2)) = meta s2).
   { unfold body. cbn [fst].
@@ -646,7 +654,7 @@ Proof.
     destruct (do_chdir_facts (fake_of outer_patched outer_base k_chdir) (e_real_chdir e) (e_root e)
                 (if path_insert_in_try then with_path (e_root e :: path s2) s2 else s2)) as (_ & _ & M & _).
     rewrite M. destruct path_insert_in_try; reflexivity. }
-  assert (S3 : stacked (mods s) (mods (fst (body e p s2)))).
+  assert (S3 : stacked rr (mods s) (mods (fst (body e p s2)))).
   { unfold body. cbn [fst]. apply run_ops_mods; [|apply mod_ops_ok_eff; exact MO].
     destruct (do_chdir_facts (fake_of outer_patched outer_base k_chdir) (e_real_chdir e) (e_root e)
                 (if path_insert_in_try then with_path (e_root e :: path s2) s2 else s2)) as (_ & _ & _ & D & _).
